@@ -814,9 +814,17 @@ TRUSTED = [
     "and by the F lines of this check)",
     "correspondence harness harness/props/c03.py; the end-to-end oracle harness/props/c03_e2e.py (generator, independent "
     "model extractor, number normalisation to 6 decimals / zero-length unit drop)",
-    "Section hypotheses of reparse_equal_items (not proved here): out_tokens_preserved (serializer `Out` spacing, C05), "
-    "value_grammar_faithful (prodparser value grammar, unmodelled), wf_item for non-string lexemes (C17 number_roundtrip, C09); "
-    "validated only end to end by the sheet-level oracle",
+    "premises of reparse_equal_items (not proved here): out_tokens_preserved (serializer `Out` spacing, C05), "
+    "value_grammar_faithful (prodparser value grammar) and wf_item for non-string lexemes (C17 number_roundtrip, C09); "
+    "validated end to end by the sheet-level oracle. HYPOTHESIS-FREE w.r.t. the value grammar since RoundtripPP.v: for "
+    "non-empty values made of STRING items (representable, no double quote, no trailing backslash) and IDENT items (no "
+    "colour keyword) joined by one space, value_grammar_faithful_pp / reparse_equal_items_pp instantiate vparse with the PP "
+    "engine's PropertyValue parse + constructor + read-back (ProdParserValue.build_value on the regenerated production "
+    "tree) and prove the premise; what is left there is only out_tokens_spaced (the `Out` premise, C05). Everything "
+    "else of the value grammar (numbers, urls, colours, functions, comma / slash operators as C03 items) still rests on "
+    "the premise",
+    "the PP engine model (coq/theories/ProdParser*.v, Gen/ProdTrees.v, Grammar.v: tied to prodparser.py / value.py by PP's own "
+    "translator and correspondence, see design_notes/PP.md) for reparse_equal_items_pp",
     "CPython 3.12 str.replace / slicing / % formatting / re as the semantics being modelled",
 ]
 ASSUME = [
